@@ -49,7 +49,7 @@ pub fn all() -> Vec<PropDef> {
         },
         PropDef {
             id: "C10",
-            rule: "well-formed registries (<= 10 and <= 64 entries; cycles, self loops, params-only edges arise from uniformly random references) x filter masks (random, sparse, all, none, singletons); oracle = reference BFS + substitution; non-trivial = the mask drops at least one entry and keeps one that has references, distinct by (encoding, mask)",
+            rule: "well-formed registries (<= 10 and <= 64 entries; cycles, self loops, params-only edges arise from uniformly random references) x filter predicates (masks over the registry's ids: random, sparse, all, none, singletons; each answering false or - in about a third of the cases - true for every id that is not in the registry, which gives `|_| true` and `|id| id != x`); oracle = reference BFS + substitution; non-trivial = the mask drops at least one entry and keeps one that has references, distinct by (encoding, mask)",
             assumptions: &["the filter closure is a pure function of the id"],
             subs: || {
                 let mut v = crate::p_reg::c10_subs();
